@@ -188,6 +188,24 @@ def seeded_adversarial(c, rnd):
     return out
 
 
+def seeded_ingress(c, rnd):
+    """Worker selection of the real IngressServer: up to four senders that differ only in remote host, remote ISD-AS
+    or session id (same stream id, overlapping sequence numbers), frames interleaved, each stream complete."""
+    out = []
+    sizes = [20, 40, 45, 60, 90, 130, 300, 700, 1400]
+    for i in range(10 if c.thorough else 3):
+        combos = [(1, 1), (2, 1), (3, 1), (1, 2)]      # (remote, session id)
+        rnd.shuffle(combos)
+        ss = []
+        for (src, sess) in combos[:rnd.randint(2, 4)]:
+            pk = [pkt(rnd.choice(sizes), rnd=rnd) for _ in range(rnd.randint(4, 10))]
+            pk = with_invalid(pk, rnd, 0.1) + [pkt(rnd.choice(sizes), 4)]
+            ss.append({"src": src, "sess": sess, "mtu": rnd.choice([57, 73, 100, 300]), "pkts": pk,
+                       "plan": plan_for(len(pk), rnd, "drain")})
+        out.append({"mode": "ingress", "sameid": 1, "streams": ss})
+    return out
+
+
 def from_tlc(c, g, rnd):
     scns = []
     seen = set()
@@ -240,7 +258,7 @@ def run(c):
     tlc_scns, total = from_tlc(c, g, rnd)
     if not tlc_scns:
         raise vlib.Infra("generator printed no scenarios")
-    scns = seeded_lossless(c, rnd) + seeded_faulty(c, rnd) + seeded_adversarial(c, rnd) + tlc_scns
+    scns = seeded_lossless(c, rnd) + seeded_faulty(c, rnd) + seeded_adversarial(c, rnd) + seeded_ingress(c, rnd) + tlc_scns
     nchunks = 8 if c.thorough else 4
 
     def cost(s):
